@@ -673,9 +673,14 @@ def ruleDateTimeDateTime(
 
 @rule(predicate("isTOD"), _regex_to_join, predicate("isTOD"))
 def ruleTODTOD(ts: datetime, t1: Time, _: RegexMatch, t2: Time) -> Interval:
-    if (t1.hour > t2.hour) and (t1.hour <= 12 and t2.hour <= 12):
-        t2.hour = t2.hour + 12
-        return Interval(t_from=t1, t_to=t2)
+    if (
+        (t1.hour > t2.hour)
+        and (t1.hour <= 12 and t2.hour <= 12)
+        and (t2.hour + 12 > t1.hour)
+    ):
+        # "9-5": implicit am to pm; build a new Time, t2 is shared with
+        # other partial parses
+        return Interval(t_from=t1, t_to=Time(hour=t2.hour + 12, minute=t2.minute))
     else:
         return Interval(t_from=t1, t_to=t2)
 
@@ -714,7 +719,13 @@ def ruleDateInterval(ts: datetime, d: Time, i: Interval) -> Optional[Interval]:
 
     if t_from and t_to and t_from.dt >= t_to.dt:
         # "9-5" edge case, this is a common implicit am to pm interval
-        if (type(t_from.hour) == int and type(t_to.hour) == int) and (t_from.hour <= 12 and t_to.hour <= 12) and (t_from.hour >= t_to.hour):
+        if (
+            (type(t_from.hour) == int and type(t_to.hour) == int)
+            and (t_from.hour <= 12 and t_to.hour <= 12)
+            and (t_from.hour >= t_to.hour)
+            # 12:00 - 0:00: adding 12 hours would not move the end past the start
+            and (t_to.dt + relativedelta(hours=12) > t_from.dt)
+        ):
             t_to_dt = t_to.dt + relativedelta(hours=12)
             t_to = Time(
                 year=t_to_dt.year,
